@@ -45,11 +45,14 @@ EXTENDS Integers, FiniteSets, Sequences, TLC, Json
 CONSTANTS NV,        \* number of non-NULL key values (<= 3, tuples are coded base 8)
           K,         \* key columns of a range
           MaxLen,    \* longest enumerated list of ranges
-          Class,     \* "all": every pair of cuts;  "canon": lo < hi, plus the empty expression
-                     \*  (AboveAll, AboveAll) and the inverted pair Closed(NV-1, 0) builds
-          MaxTree    \* most ranges stored in the tree (tree mode)
+          Class,     \* "canon": lo < hi, plus the empty expression (AboveAll, AboveAll) -- what the
+                     \*  constructors and every operation produce;  "all": every pair of cuts,
+                     \*  i.e. also the degenerate ones (lo >= hi elsewhere, e.g. Closed(2, 0))
+          MaxTree,   \* most ranges stored in the tree (tree mode)
+          MinRem     \* tree mode: a range is removed only from a tree of at least this many (1 = always;
+                     \*  larger values keep simulated trees big enough to have structure)
 
-ASSUME NV \in 1..3 /\ K \in 1..3 /\ MaxLen \in Nat /\ MaxTree \in Nat /\ Class \in {"all", "canon"}
+ASSUME NV \in 1..3 /\ K \in 1..3 /\ MaxLen \in Nat /\ MaxTree \in Nat /\ MinRem \in Nat /\ Class \in {"all", "canon"}
 
 \* ---- cuts and their total order (the rank IS the order) ---------------------------------------
 BelowNull == 0
@@ -112,16 +115,21 @@ ASSUME BuildersDenote ==
     \A c \in BuildCalls : RcePts(Ctor(c.name, c.l, c.u)) = {p \in Pts : Means(c.name, c.l, c.u, p)}
 
 \* ---- ranges, key tuples, point sets ---------------------------------------------------------------
-RceSet == IF Class = "all" THEN Cuts \X Cuts
-          ELSE {e \in Cuts \X Cuts : e[1] < e[2]} \cup {EmptyRce, <<Below(NV - 1), Above(0)>>}
 ProperRce == {e \in Cuts \X Cuts : e[1] < e[2]}
+RceSet == IF Class = "all" THEN Cuts \X Cuts ELSE ProperRce \cup {EmptyRce}
+Degenerate(e) == e[1] >= e[2] /\ e # EmptyRce      \* denotes nothing, but is not THE empty expression
 
 Pow8(i) == IF i = 0 THEN 1 ELSE IF i = 1 THEN 8 ELSE 64
 Coord(t, i, k) == (t \div Pow8(k - i)) % 8
 TuplesOf(k) == {t \in 0..(8 * Pow8(k - 1) - 1) : \A i \in 1..k : Coord(t, i, k) < NP}
 Tuples == TuplesOf(K)
-Member(t, r) == \A i \in 1..Len(r) : InRce(Coord(t, i, Len(r)), r[i])
-PointsOf(r) == {t \in TuplesOf(Len(r)) : Member(t, r)}
+Member(t, r) == \A i \in 1..K : InRce(Coord(t, i, K), r[i])
+PointsByMember(r) == {t \in Tuples : Member(t, r)}              \* the definition
+\* the same set built as a product (what TLC evaluates; lemma FastAgree: equal to the definition)
+PointsOf(r) ==
+    CASE K = 1 -> RcePts(r[1])
+      [] K = 2 -> {8 * a + b : a \in RcePts(r[1]), b \in RcePts(r[2])}
+      [] K = 3 -> {64 * a + 8 * b + c : a \in RcePts(r[1]), b \in RcePts(r[2]), c \in RcePts(r[3])}
 Points(list) == UNION {PointsOf(list[i]) : i \in 1..Len(list)}
 PointsOfSet(S) == UNION {PointsOf(r) : r \in S}
 
@@ -148,7 +156,8 @@ GoodResult(res, pts) == Points(res) = pts /\ Sorted(res) /\ Disjoint(res)
 
 \* cut-level overlap / connection (what the implementation computes on the dense order)
 CutOverlap(a, b) == \A i \in 1..Len(a) : CutMax(a[i][1], b[i][1]) < CutMin(a[i][2], b[i][2])
-Touch(a, b) == /\ PointsOf(a) # {} /\ PointsOf(b) # {}
+NonEmptyCuts(a) == \A i \in 1..Len(a) : a[i][1] < a[i][2]
+Touch(a, b) == /\ NonEmptyCuts(a) /\ NonEmptyCuts(b)
                /\ \A i \in 1..Len(a) : CutMax(a[i][1], b[i][1]) <= CutMin(a[i][2], b[i][2])
 CutIntersection(a, b) == [i \in 1..Len(a) |-> <<CutMax(a[i][1], b[i][1]), CutMin(a[i][2], b[i][2])>>]
 
@@ -156,12 +165,13 @@ CutIntersection(a, b) == [i \in 1..Len(a) |-> <<CutMax(a[i][1], b[i][1]), CutMin
 VARIABLES lst,     \* enumeration mode: the list of ranges built so far
           cur,     \* enumeration mode: the range being built, column by column
           tree,    \* tree mode: the set of stored ranges
+          pend,    \* tree mode: "ins" while its range is being chosen, "sweep" after a change, else ""
           act,     \* output only
           step
-vars == <<lst, cur, tree, act, step>>
+vars == <<lst, cur, tree, pend, act, step>>
 
 \* ---- enumeration mode: every list of <= MaxLen ranges, one column expression per step -----------------
-InitEnum == lst = <<>> /\ cur = <<>> /\ tree = {} /\ act = [op |-> "init"] /\ step = 0
+InitEnum == lst = <<>> /\ cur = <<>> /\ tree = {} /\ pend = "" /\ act = [op |-> "init"] /\ step = 0
 
 AddRce(e) ==
     /\ Len(lst) < MaxLen
@@ -169,7 +179,7 @@ AddRce(e) ==
        THEN lst' = Append(lst, Append(cur, e)) /\ cur' = <<>> /\ act' = [op |-> "case"]
        ELSE lst' = lst /\ cur' = Append(cur, e) /\ act' = [op |-> "part"]
     /\ step' = step + 1
-    /\ UNCHANGED tree
+    /\ UNCHANGED <<tree, pend>>
 
 \* the constructor calls (checked once, from the initial state)
 Build(c) ==
@@ -177,9 +187,24 @@ Build(c) ==
     /\ act' = [op |-> "build", nv |-> NV, ctor |-> c.name, l |-> c.l, u |-> c.u,
                un |-> {p \in Pts : Means(c.name, c.l, c.u, p)}]
     /\ step' = step + 1
-    /\ UNCHANGED <<lst, cur, tree>>
+    /\ UNCHANGED <<lst, cur, tree, pend>>
 
 NextEnum == (\E e \in RceSet : AddRce(e)) \/ (\E c \in BuildCalls : Build(c))
+
+\* witness mode (K = 2, NV = 3): the minimal inputs of the open findings of known_findings.jsonl,
+\* replayed on every run so that a finding that disappears is noticed
+Witnesses ==
+    {   \* RemoveOverlappingRanges rejects its own result ("overlapping ranges"): 5 ranges
+        <<  <<<<2, 6>>, <<2, 4>>>>, <<<<1, 5>>, <<4, 8>>>>, <<<<4, 8>>, <<4, 7>>>>, <<<<2, 3>>, <<0, 4>>>>, <<<<4, 6>>, <<3, 7>>>>  >>,
+        \* IntersectRanges returns its first argument
+        <<  <<<<0, 8>>, <<0, 8>>>>, <<<<2, 3>>, <<4, 5>>>>  >>,
+        \* a degenerate column expression (Closed(1, 0)): RemoveOverlappingRanges does not terminate
+        <<  <<<<0, 5>>, <<0, 1>>>>, <<<<4, 3>>, <<0, 2>>>>  >>  }
+NextWitness ==
+    /\ lst = <<>>
+    /\ \E L \in Witnesses : lst' = L
+    /\ act' = [op |-> "case"] /\ step' = step + 1
+    /\ UNCHANGED <<cur, tree, pend>>
 
 CaseRec(L) ==
     LET n == Len(L)
@@ -188,6 +213,7 @@ CaseRec(L) ==
     IN [op |-> "case", k |-> K, nv |-> NV, rs |-> L, pts |-> P, un |-> U(1, n),
         emp |-> [i \in 1..n |-> P[i] = {}],
         nt |-> \E i, j \in 1..n : i < j /\ Touch(L[i], L[j]),
+        deg |-> \E i \in 1..n, c \in 1..K : Degenerate(L[i][c]),
         bin |-> IF n = 2
                 THEN <<[in |-> P[1] \cap P[2], ov |-> P[1] \cap P[2] # {}, df |-> P[1] \ P[2],
                         sub |-> P[1] \subseteq P[2], sup |-> P[2] \subseteq P[1]]>>
@@ -207,41 +233,68 @@ DenseAgree ==
         IN (PointsOf(a) # {} /\ PointsOf(b) # {}) =>
              /\ CutOverlap(a, b) <=> OverlapsSpec(a, b)
              /\ PointsOf(CutIntersection(a, b)) = IntersectSpec(a, b)
+FastAgree == \A i \in 1..Len(lst) : PointsOf(lst[i]) = PointsByMember(lst[i])
 TypeEnum == Len(lst) <= MaxLen /\ Len(cur) < K /\ \A i \in 1..Len(lst) : Len(lst[i]) = K
 
 \* ---- tree mode: behaviours of the interval tree used by RemoveOverlappingRanges --------------------------
-ProperRanges == [1..K -> ProperRce]        \* sequences of length K
-InitTree == lst = <<>> /\ cur = <<>> /\ tree = {} /\ act = [op |-> "init"] /\ step = 0
+\* Discipline of RemoveOverlappingRanges: a range is inserted only when nothing stored overlaps it;
+\* stored ranges are non-empty.  The range of an insert is chosen one column per step (small fan-out
+\* for -simulate; `pend` = "ins" meanwhile).  After every change of the tree one deterministic Sweep
+\* step asks EVERY query range: FindConnections(q) must return stored ranges only and at least every
+\* stored range that overlaps q; GetRangeCollection must denote the union, sorted and disjoint.
+InitTree == lst = <<>> /\ cur = <<>> /\ tree = {} /\ pend = "" /\ act = [op |-> "init"] /\ step = 0
 
-\* discipline of RemoveOverlappingRanges: a range is inserted only when nothing stored overlaps it
-TIns(r) ==
+\* (disjointness is tested on the cuts, which is the same by lemma DenseAgree; invariant TreeDisjoint
+\*  re-checks it on the point sets)
+\* RemoveOverlappingRanges also never stores two ranges that TryMerge can merge: two disjoint boxes whose
+\* union is a box, i.e. equal in all columns but one and touching there.
+TouchAt(a, b, i) == CutMax(a[i][1], b[i][1]) <= CutMin(a[i][2], b[i][2])
+SameBut(a, b, i) == \A j \in 1..K : (j # i) => (a[j] = b[j])
+UnionIsBox(a, b) == \E i \in 1..K : SameBut(a, b, i) /\ TouchAt(a, b, i)
+InsOK(r) == r \notin tree /\ \A s \in tree : ~CutOverlap(s, r) /\ ~UnionIsBox(s, r)
+Suffixes(n) == IF n = 0 THEN {<<>>} ELSE [1..n -> ProperRce]
+Completable(part) == \E sfx \in Suffixes(K - Len(part)) : InsOK(part \o sfx)
+
+TInsCol(e) ==
+    /\ IF cur = <<>> THEN pend = "" ELSE pend = "ins"
     /\ Cardinality(tree) < MaxTree
-    /\ r \notin tree
-    /\ \A s \in tree : PointsOf(s) \cap PointsOf(r) = {}
-    /\ tree' = tree \cup {r}
-    /\ act' = [op |-> "tree", kind |-> "ins", r |-> r]
+    /\ Completable(Append(cur, e))
+    /\ IF Len(cur) + 1 < K
+       THEN cur' = Append(cur, e) /\ pend' = "ins" /\ tree' = tree /\ act' = [op |-> "part"]
+       ELSE /\ cur' = <<>> /\ pend' = "sweep"
+            /\ tree' = tree \cup {Append(cur, e)}
+            /\ act' = [op |-> "tree", kind |-> "ins", r |-> Append(cur, e)]
 TRem(r) ==
+    /\ cur = <<>> /\ pend = ""
     /\ r \in tree
-    /\ tree' = tree \ {r}
+    /\ Cardinality(tree) >= MinRem
+    /\ tree' = tree \ {r} /\ cur' = cur /\ pend' = "sweep"
     /\ act' = [op |-> "tree", kind |-> "rem", r |-> r]
-TFind(q) ==
-    /\ tree # {}
-    /\ tree' = tree
-    /\ act' = [op |-> "tree", kind |-> "find", r |-> q]
+TSweep ==
+    /\ pend = "sweep"
+    /\ pend' = "" /\ tree' = tree /\ cur' = cur
+    /\ act' = [op |-> "tree", kind |-> "sweep", r |-> <<>>]
 NextTree ==
-    /\ \/ \E r \in ProperRanges : TIns(r)
+    /\ \/ \E e \in ProperRce : TInsCol(e)
        \/ \E r \in tree : TRem(r)
-       \/ \E q \in ProperRanges : TFind(q)
+       \/ TSweep
     /\ step' = step + 1
-    /\ UNCHANGED <<lst, cur>>
+    /\ UNCHANGED lst
 
+ProperRanges == [1..K -> ProperRce]
+SweepRec(T) ==      \* every query that must find something, with what it must find
+    LET TP == [s \in T |-> PointsOf(s)]
+        Hit(q) == LET qp == PointsOf(q) IN {s \in T : TP[s] \cap qp # {}}
+    IN {[q |-> q, must |-> Hit(q)] : q \in {x \in ProperRanges : \E s \in T : CutOverlap(s, x)}}
 EmitTree ==
-    PrintT("C46 " \o ToJson([op |-> "tree", k |-> K, nv |-> NV, step |-> step', kind |-> act'.kind, r |-> act'.r,
-                              pre |-> tree, post |-> tree',
-                              must |-> {s \in tree' : OverlapsSpec(s, act'.r)},
-                              un |-> PointsOfSet(tree'),
-                              nt |-> \E s \in tree : Touch(s, act'.r)]))
+    act'.op = "tree" =>
+    PrintT("C46 " \o ToJson(
+        [op |-> "tree", k |-> K, nv |-> NV, step |-> step', kind |-> act'.kind, r |-> act'.r,
+         pre |-> tree, post |-> tree', un |-> PointsOfSet(tree'),
+         qs |-> IF act'.kind = "sweep" THEN SweepRec(tree') ELSE {},
+         nt |-> IF act'.kind = "sweep" THEN Cardinality(tree) >= 2 ELSE \E s \in tree \ {act'.r} : Touch(s, act'.r)]))
 TreeDisjoint == \A s, t \in tree : s # t => PointsOf(s) \cap PointsOf(t) = {}
-ViewTree == tree
+TypeTree == Cardinality(tree) <= MaxTree /\ Len(cur) < K
+ViewTree == <<tree, cur, pend>>
 ViewEnum == <<lst, cur>>
 =============================================================================
